@@ -48,6 +48,7 @@ func c16Options(sc c16Scenario, pop int) *neat.Options {
 	o.EpochExecutorType = neat.EpochExecutorTypeParallel
 	o.CompatThreshold = 1.5
 	o.MutdiffCoeff = 0.1
+	o.SurvivalThresh = 1.0 // every member stays a parent: with one parent per species nothing would mate
 	o.BabiesStolen = sc.Stolen
 	switch sc.Profile {
 	case "addnode":
@@ -55,6 +56,11 @@ func c16Options(sc c16Scenario, pop int) *neat.Options {
 	case "addlink":
 		o.MutateOnlyProb, o.MutateAddNodeProb, o.MutateAddLinkProb, o.NewLinkTries = 1, 0, 1, 4
 		o.RecurOnlyProb = 0.5
+	case "mateonly":
+		o.MutateOnlyProb = 0
+		o.InterspeciesMateRate = 0.5
+		o.MateMultipointProb, o.MateMultipointAvgProb, o.MateSinglepointProb = 0, 0.5, 0.5
+		o.MateOnlyProb = 1
 	case "mixed":
 		o.MutateOnlyProb = 0.5
 		o.MutateAddNodeProb, o.MutateAddLinkProb, o.MutateConnectSensors = 0.5, 0.5, 0.5
@@ -67,14 +73,15 @@ func c16Options(sc c16Scenario, pop int) *neat.Options {
 }
 
 func c16Scenarios(quick bool) []c16Scenario {
-	two := hbSpec{[]int{2, 2}, []int{1, 1}, []int{0, 0}}
-	three := hbSpec{[]int{2, 2, 2}, []int{1, 1, 1}, []int{0, 0, 0}}
-	three1 := hbSpec{[]int{1, 1, 1}, []int{1, 1, 1}, []int{0, 0, 0}}
+	two := hbSpec{Sizes: []int{2, 2}, Ages: []int{1, 1}, Lags: []int{0, 0}}
+	three := hbSpec{Sizes: []int{2, 2, 2}, Ages: []int{1, 1, 1}, Lags: []int{0, 0, 0}}
+	three1 := hbSpec{Sizes: []int{1, 1, 1}, Ages: []int{1, 1, 1}, Lags: []int{0, 0, 0}}
 	scs := []c16Scenario{
 		{Name: "3 species x 1 offspring, all add-node", HB: three1, Profile: "addnode", Policy: "M", Fit: 1},
 		{Name: "3 species x 2 offspring, all add-node", HB: three, Profile: "addnode", Policy: "A", Fit: 1},
 		{Name: "2 species x 2 offspring, all add-link", HB: two, Profile: "addlink", Policy: "M", Fit: 1},
-		{Name: "3 species x 1 offspring, mixed with mating and interspecies dad", HB: three1, Profile: "mixed", Policy: "A", Fit: 2},
+		{Name: "3 species x 2 offspring, mixed with mating and interspecies dad", HB: three, Profile: "mixed", Policy: "A", Fit: 2},
+		{Name: "2 species x 2 offspring, mating only (multipoint-avg / single-point)", HB: two, Profile: "mateonly", Policy: "M", Fit: 1},
 	}
 	if !quick {
 		scs = append(scs,
@@ -238,7 +245,7 @@ func c16Explore(c *Ctx, sc c16Scenario, bound int, shardK, shardN int) *c16Stats
 		if len(o.res.Races) > 0 {
 			st.races++
 			r := o.res.Races[0]
-			c16Violate(c, sc, prefix, "race-on-"+r.Field, "happens-before race on Population."+r.Field+": "+r.String(), o)
+			c16Violate(c, sc, prefix, "race-on-"+r.Field, "happens-before race on "+r.Field+": "+r.String(), o)
 		}
 		if o.hash != 0 {
 			st.outcomes[o.hash] = true
@@ -325,7 +332,7 @@ func runC16(c *Ctx) {
 		c16RunRacePass(c)
 	}
 	c.States = int64(len(c.distinct))
-	c.Rule = fmt.Sprintf("scenarios: hand-built populations of 2-3 species whose members share genes, profiles all-add-node / all-add-link / mixed with mating and interspecies dad, 1-2 offspring per species, optionally after a warm-up epoch; the real ParallelPopulationEpochExecutor.NextEpoch under the controlled scheduler: ALL interleavings of the scheduling points (spawn, mutex lock/unlock, wait-group add/done/wait, atomic operations, channel send/recv/close, Population method entries) with at most %d preemptions; on every schedule: no deadlock, no panic, no happens-before race on Population.innovations / nextInnovNum / nextNodeId (vector-clock monitor), no epoch error, exact size and species partition, well-formed genomes, innovation ledger (a number denotes one connection, a node id one role, new numbers above all held). Thread-local draws from policies M/H/A/R. Plus a free-running pass of the same bodies under Go's race detector (race_pass_runs; not schedule-exhaustive). states = distinct resulting populations, transitions = scheduling decisions", bound)
+	c.Rule = fmt.Sprintf("scenarios: hand-built populations of 2-3 species whose members share genes, profiles all-add-node / all-add-link / mixed with mating and interspecies dad, 1-2 offspring per species, optionally after a warm-up epoch; the real ParallelPopulationEpochExecutor.NextEpoch under the controlled scheduler: ALL interleavings of the scheduling points (spawn, mutex lock/unlock, wait-group add/done/wait, atomic operations, channel send/recv/close, Population method entries) with at most %d preemptions; on every schedule: no deadlock, no panic, no happens-before race on Population.innovations / nextInnovNum / nextNodeId nor on any package-level variable of the instrumented packages (vector-clock monitor), no epoch error, exact size and species partition, well-formed genomes, innovation ledger (a number denotes one connection, a node id one role, new numbers above all held). Thread-local draws from policies M/H/A/R. Plus a free-running pass of the same bodies under Go's race detector (race_pass_runs; not schedule-exhaustive). states = distinct resulting populations, transitions = scheduling decisions", bound)
 	c.Assume("race-freedom outside the anchored fields rests on the free-running race-detector pass (happens-before based, not schedule-exhaustive)")
 	c.Assume("memory-model effects weaker than sequential consistency are not modelled by the cooperative scheduler")
 }
@@ -411,7 +418,13 @@ func c16RunRacePass(c *Ctx) {
 		runs = 60
 	}
 	done := 0
-	for i := 0; i < runs && !c.Expired(); i++ {
+	start := time.Now()
+	for i := 0; i < runs; i++ {
+		// the pass has its own budget (a third of the tier's) and always performs at least two runs
+		if i >= 2 && (time.Since(start) > time.Until(c.deadline)/3+time.Minute || time.Since(start) > 8*time.Minute) {
+			c.MarkCapped(fmt.Sprintf("race pass stopped after %d of %d runs (time)", i, runs))
+			break
+		}
 		cmd := exec.Command(bin, "C16RACEPASS", "--tier", "quick")
 		procs := "16"
 		if i%2 == 1 {
